@@ -4,7 +4,7 @@
    ladder of expressions.go), Lower/Ops.v (operator lowering of compiler.go), Lower/ListEq.v (generated list
    equality), Lower/ForLoop.v (counting-loop lowering).
    Status: prec_roundtrip FULL for the stated fragment; op lowering, unary, conversion, zwischen FULL (all values);
-   list equality FULL for Zahlen Listen (Kommazahl lists are compared bitwise by the code: see KNOWN_FINDINGS);
+   list equality FULL for Zahlen Listen and Kommazahlen Listen;
    counting loop FULL for Zahl/Byte counters over abstract body/end-value evaluators.
    Whole-program preservation (DESIGN stage 4) is not proved: it is covered by the correspondence runs only. *)
 From Coq Require Import ZArith List Bool Lia String.
@@ -80,6 +80,13 @@ Print Assumptions C01_list_equality_lowering_correct.
 Example C01_list_equality_nonvacuous :
   in_range [1] /\ in_range [3] /\ lower_list_eq_zahl [1] [3] = false.
 Proof. repeat split; try (repeat constructor; unfold min64, max64; lia); vm_compute; reflexivity. Qed.
+
+(* equality of Kommazahlen Listen (element loop with fcmp une since f7e8a0b; bitwise memcmp before - found by
+   this property's check): the emitted code computes exactly RefSem's element-wise `gleich`, for all lists *)
+Theorem C01_list_equality_kommazahl_lowering_correct :
+  forall a b, value_eqb (VL TKomma (map VK a)) (VL TKomma (map VK b)) = Some (lower_list_eq_komma a b).
+Proof. exact list_eq_komma_lowering_correct. Qed.
+Print Assumptions C01_list_equality_kommazahl_lowering_correct.
 
 (* (c) counting loops: direction from the sign of the step, inclusive bound, hidden 64-bit index, Byte
    counter truncated from it - the lowered blocks refine the loop rule for every iteration count *)
